@@ -186,6 +186,10 @@ def build_ops():
     I = "into"
     ops += [
         ("insert", "func", I, lambda x, y: np.insert(_1d(x), 1, y), "leftq"),
+        ("pad", "constant_values", I, lambda x, y: np.pad(_1d(x), 1, constant_values=_first(y)), "leftq"),
+        ("pad", "constant_values-pair", I, lambda x, y: np.pad(_1d(x), (1, 2), constant_values=(_first(y), _first(y))), "leftq"),
+        ("pad", "constant_values-nested", I, lambda x, y: np.pad(_1d(x), 1, constant_values=((_first(y), _first(x)),)), "leftq"),
+        ("pad", "end_values", I, lambda x, y: np.pad(_1d(x), 2, mode="linear_ramp", end_values=_first(y)), "leftq"),
         ("put", "func", I, lambda x, y: np.put(x, [0], y), "lefta"),
         ("place", "func", I, lambda x, y: np.place(x, np.ones(x.shape, bool), y), "lefta"),
         ("putmask", "func", I, lambda x, y: np.putmask(x, np.ones(x.shape, bool), y), "lefta"),
